@@ -1,6 +1,7 @@
 (* C07 - Exit status 0 means everything was applied; every failure is reported.  Statements only. *)
 From RJ Require Import Base.Prelude Base.OrderedPlan Model.Settings Model.Core Model.Fs Model.Paths Model.Sync Model.SyncTop
   Proofs.ExecProofs Proofs.DryProofs Proofs.CrashProofs Proofs.CrashMain Proofs.ReportProofs Proofs.TouchedProofs Proofs.InstanceProofs Model.Async Proofs.AsyncProofs Proofs.MirrorProofs Proofs.KillEvents.
+From RJ Require Import Model.SpecRun Proofs.SpecProofs.
 
 (* sync() returns Ok (a real run, the root not skipped) only if EVERY step of the confirmed plan was carried
    out: every planned command sent, executed and answered without error, every source file fetched; the
@@ -133,6 +134,28 @@ Example C07_example :
   nobytes (r_stats good) = census (skipn 2 (r_dest_trace good)).
 Proof. vm_compute. repeat split; reflexivity. Qed.
 
+(* A SPEC WITH SEVERAL SYNCS (Model/SpecRun.v: execute_spec folds the syncs over a store of trees; a fresh doer
+   context per sync; the first failing sync ends the run).  Exit status 0 exactly when EVERY sync of the spec was
+   started and returned Ok ... *)
+Theorem C07_spec_exit0_iff_all_ok : forall jobs st,
+  sp_ok (run_spec jobs st) = true <->
+  length (sp_runs (run_spec jobs st)) = length jobs /\ forallb r_ok (sp_runs (run_spec jobs st)) = true.
+Proof. intros jobs st. exact (spec_ok_iff jobs st). Qed.
+(* ... and status 12 exactly when some sync failed: it is the last one that was started, all before it returned Ok
+   and none after it was started (a later success can never mask it). *)
+Theorem C07_spec_failure_is_last : forall jobs st,
+  forallb r_ok (removelast (sp_runs (run_spec jobs st))) = true /\
+  length (sp_runs (run_spec jobs st)) <= length jobs /\
+  (sp_ok (run_spec jobs st) = false <->
+   exists r, last (sp_runs (run_spec jobs st)) r = r /\ r_ok r = false /\ sp_runs (run_spec jobs st) <> []).
+Proof. intros jobs st. exact (spec_failure_is_last jobs st). Qed.
+(* each started sync is the single-sync model on the trees as the syncs before it left them *)
+Theorem C07_spec_runs_are_syncs : forall jobs st,
+  sp_runs (run_spec jobs st) = map t_res (spec_trace jobs st) /\
+  Forall (fun t => t_res t = run_job (t_job t) (t_store t)) (spec_trace jobs st) /\
+  map t_job (spec_trace jobs st) = firstn (length (spec_trace jobs st)) jobs.
+Proof. intros jobs st. exact (conj (runs_of_trace jobs st) (conj (trace_is_runs jobs st) (trace_jobs jobs st))). Qed.
+
 Print Assumptions C07_exit0_all_applied.
 Print Assumptions C07_no_error_dropped.
 Print Assumptions C07_failure_is_reported.
@@ -144,3 +167,6 @@ Print Assumptions C07_async_no_error_lost.
 Print Assumptions C07_async_prefix.
 Print Assumptions C07_async_ok_agrees_with_sync.
 Print Assumptions C07_async_covered_by_sync.
+Print Assumptions C07_spec_exit0_iff_all_ok.
+Print Assumptions C07_spec_failure_is_last.
+Print Assumptions C07_spec_runs_are_syncs.
